@@ -6,5 +6,6 @@ CONSTANTS Tiny = FALSE
  Seed = 0
  Stride = 1
  Bound = 0
-INVARIANTS RoundTrip Frame FormsAgree PathsDisjoint CopyRefines CopyExact
+ UnitCheck = FALSE
+INVARIANTS RoundTrip Frame FormsAgree PathsDisjoint CopyRefines CopyExact ExtentOK
 CHECK_DEADLOCK FALSE
